@@ -559,8 +559,24 @@ func (c *Ctx) mapHeaps(st *State, m *types.Map) (kd, kv, dom, val string) {
 		d0 := c.heapGetSort(&State{heap: map[string]string{}}, kd, fmt.Sprintf("(Array Int (Array %s Bool))", ks))
 		c.defs = append(c.defs, fmt.Sprintf("(assert (= (select %s 0) ((as const (Array %s Bool)) false)))", d0, ks))
 	}
+	_, valKnown := c.heap0[kv]
 	dom = c.heapGetSort(st, kd, fmt.Sprintf("(Array Int (Array %s Bool))", ks))
 	val = c.heapGetSort(st, kv, fmt.Sprintf("(Array Int (Array %s %s))", ks, vs))
+	if !valKnown && st.param == nil {
+		if v0, ok := c.heap0[kv]; ok {
+			// references stored in maps of the entry heap were allocated before the call
+			a0 := c.heap0[allocKey]
+			if a0 == "" {
+				a0 = c.fresh("alloc0", "Int")
+				c.heap0[allocKey] = a0
+				c.heapSrt[allocKey] = "Int"
+				c.defs = append(c.defs, fmt.Sprintf("(assert (>= %s 0))", a0))
+			}
+			for _, rp := range c.refPaths("(select (select "+v0+" m_r) k_r)", m.Elem(), 0) {
+				c.defs = append(c.defs, fmt.Sprintf("(assert (forall ((m_r Int) (k_r %s)) (! %s :pattern ((select (select %s m_r) k_r)))))", ks, strings.ReplaceAll(rp, "$B", a0), v0))
+			}
+		}
+	}
 	return
 }
 
